@@ -47,6 +47,11 @@ pub enum Act {
     ReadPending,
     /// async only: the caller drops the pending read() future and calls read() again
     Cancel,
+    /// the write half reports "not ready" STORM times in a row (tokio: Pending, blocking:
+    /// Interrupted) - "however often it reports that it is not ready"
+    WriteStorm,
+    /// async only: the read half stays Pending for STORM polls in a row
+    ReadStorm,
     /// async only: 30 s pass on the (paused) clock while the connection is suspended; never more
     /// than 60 s in a row without a transport event, so that the documented 90 s read timeout
     /// cannot fire and the expected effect is: none
@@ -56,8 +61,8 @@ pub enum Act {
 impl Act {
     pub fn side(&self) -> Option<Side> {
         match self {
-            Act::Deliver(_) | Act::ReadFail(_) | Act::Eof | Act::ReadPending => Some(Side::Read),
-            Act::Accept(_) | Act::WritePending => Some(Side::Write),
+            Act::Deliver(_) | Act::ReadFail(_) | Act::Eof | Act::ReadPending | Act::ReadStorm => Some(Side::Read),
+            Act::Accept(_) | Act::WritePending | Act::WriteStorm => Some(Side::Write),
             Act::Cancel | Act::Tick => None,
         }
     }
@@ -93,12 +98,18 @@ pub struct Inner {
     pub eof_delivered: bool,
     /// bytes actually handed over by each Deliver answer (clipped to the offered buffer)
     pub delivered: Vec<usize>,
+    /// not-ready answers still owed by the storm in progress (read side, write side)
+    pub storm_left: (u32, u32),
 }
 
 impl Inner {
     fn read_answer(&mut self, buf_len: usize) -> Option<Result<Vec<u8>, io::Error>> {
         // Some(Ok(bytes)) / Some(Err) / None = nothing scripted
         self.read_caps.push(buf_len);
+        if self.storm_left.0 > 0 {
+            self.storm_left.0 -= 1;
+            return Some(Err(io::Error::new(io::ErrorKind::Other, "verif: pending")));
+        }
         match self.queue.front() {
             None => None,
             Some(a) if a.side() != Some(Side::Read) => {
@@ -119,6 +130,10 @@ impl Inner {
                     Some(Ok(vec![]))
                 },
                 Act::ReadPending => Some(Err(io::Error::new(io::ErrorKind::Other, "verif: pending"))),
+                Act::ReadStorm => {
+                    self.storm_left.0 = STORM - 1;
+                    Some(Err(io::Error::new(io::ErrorKind::Other, "verif: pending")))
+                },
                 _ => unreachable!(),
             },
         }
@@ -130,6 +145,10 @@ impl Inner {
         if !self.script_writes {
             self.accept(buf, buf.len());
             return Some(Ok(buf.len()));
+        }
+        if self.storm_left.1 > 0 {
+            self.storm_left.1 -= 1;
+            return Some(Err(io::Error::new(io::ErrorKind::Other, "verif: pending")));
         }
         match self.queue.front() {
             None => None,
@@ -144,6 +163,10 @@ impl Inner {
                     Some(Ok(n))
                 },
                 Act::WritePending => Some(Err(io::Error::new(io::ErrorKind::Other, "verif: pending"))),
+                Act::WriteStorm => {
+                    self.storm_left.1 = STORM - 1;
+                    Some(Err(io::Error::new(io::ErrorKind::Other, "verif: pending")))
+                },
                 _ => unreachable!(),
             },
         }
@@ -261,6 +284,8 @@ pub struct RunResult {
     pub pos: usize,
     pub finished: bool,
     pub calls_started: usize,
+    /// one entry per started driver call: (is_read, cancelled)
+    pub call_log: Vec<(bool, bool)>,
     /// Tick answers consumed by the driver call in progress
     pub ticks_in_call: u32,
     pub read_caps: Vec<usize>,
@@ -296,6 +321,8 @@ fn render_unit(r: &Result<(), insim::Error>) -> String {
 }
 
 pub const TICK_SECS: u64 = 30;
+/// not-ready answers in one storm
+pub const STORM: u32 = 300;
 
 thread_local! {
     static RT: tokio::runtime::Runtime = tokio::runtime::Builder::new_current_thread()
@@ -348,7 +375,7 @@ fn run_blocking(inst: &Instance, hist: &[Act], inner: Arc<Mutex<Inner>>) -> RunR
     {
         let mut w = inner.lock().unwrap();
         for a in hist {
-            if matches!(a, Act::Cancel | Act::ReadPending | Act::Tick) {
+            if matches!(a, Act::Cancel | Act::ReadPending | Act::ReadStorm | Act::Tick) {
                 out.harness_error = Some(format!("{a:?} is not a blocking answer"));
                 return out;
             }
@@ -357,6 +384,19 @@ fn run_blocking(inst: &Instance, hist: &[Act], inner: Arc<Mutex<Inner>>) -> RunR
     }
     let mut framed = blocking_impl::Framed::new(Box::new(World(inner.clone())), Codec::new(mode_of(inst.compressed)));
     framed.verify_version(inst.verify_version);
+    if let Some(isi) = &inst.handshake {
+        let was = std::mem::replace(&mut inner.lock().unwrap().script_writes, false);
+        let r = framed.handshake(isi.clone());
+        let mut w = inner.lock().unwrap();
+        if r.is_err() {
+            w.harness_error = Some(format!("handshake failed: {r:?}"));
+        }
+        w.script_writes = was;
+        w.written.clear();
+        w.stamps.clear();
+        w.offered = 0;
+        w.offered_bytes.clear();
+    }
     match &inst.program {
         Program::ReadLoop => loop {
             {
@@ -416,6 +456,22 @@ fn run_tokio(inst: &Instance, hist: &[Act], inner: Arc<Mutex<Inner>>) -> RunResu
     let mut out = RunResult::default();
     let mut framed = tokio_impl::Framed::new(Box::new(World(inner.clone())), Codec::new(mode_of(inst.compressed)));
     framed.verify_version(inst.verify_version);
+    if let Some(isi) = &inst.handshake {
+        let was = std::mem::replace(&mut inner.lock().unwrap().script_writes, false);
+        let r = {
+            let mut t = tokio_test::task::spawn(framed.handshake(isi.clone(), std::time::Duration::from_secs(5)));
+            t.poll()
+        };
+        let mut w = inner.lock().unwrap();
+        if !matches!(r, Poll::Ready(Ok(()))) {
+            w.harness_error = Some(format!("handshake did not complete at once: {r:?}"));
+        }
+        w.script_writes = was;
+        w.written.clear();
+        w.stamps.clear();
+        w.offered = 0;
+        w.offered_bytes.clear();
+    }
     let mut next = 0usize; // next history item to feed
     // ops: None = read(), Some(p) = write(p); ReadLoop = reads for ever
     let ops: Option<Vec<Option<Packet>>> = match &inst.program {
@@ -439,6 +495,7 @@ fn run_tokio(inst: &Instance, hist: &[Act], inner: Arc<Mutex<Inner>>) -> RunResu
             w.asked = None;
         }
         out.calls_started += 1;
+        out.call_log.push((is_read, false));
         out.ticks_in_call = 0;
         // the boxed future borrows `framed`; it is dropped before the buffer is inspected
         enum Done {
@@ -510,6 +567,9 @@ fn run_tokio(inst: &Instance, hist: &[Act], inner: Arc<Mutex<Inner>>) -> RunResu
             },
             Done::Cancelled => {
                 out.cancels += 1;
+                if let Some(l) = out.call_log.last_mut() {
+                    l.1 = true;
+                }
                 if !is_read {
                     // a cancelled write is not retried by this driver
                     wi += 1;
